@@ -371,3 +371,101 @@ func ruleMembershipCopy(e *Engine, r *Report) {
 	}
 
 }
+
+// ruleLastAppliedAfterApply (C01, C08): the applied cursor that releases
+// reads and bounds snapshots is published only after the entries were applied.
+func ruleLastAppliedAfterApply(e *Engine, r *Report) {
+	if h := r.need("(*internal/rsm.StateMachine).handle"); h != nil {
+		sla := r.need("(*internal/rsm.StateMachine).setLastApplied")
+		he := e.Func("(*internal/rsm.StateMachine).handleEntry")
+		hb := e.Func("(*internal/rsm.StateMachine).handleBatch")
+		if sla != nil && he != nil && hb != nil {
+			for _, s := range e.SitesIn(h, sla) {
+				// no path from setLastApplied back to an apply call within the same task iteration:
+				// every apply call site dominates... simpler: setLastApplied is not followed by handleEntry/handleBatch for the same entries
+				c := s.(*ssa.Call)
+				sameArgApplied := false
+				for _, f := range []*ssa.Function{he, hb} {
+					for _, as := range e.SitesIn(h, f) {
+						if dominatesInstr(c, as.(ssa.Instruction)) {
+							sameArgApplied = true
+						}
+					}
+				}
+				r.check(!sameArgApplied, "MPT-lastapplied-after-apply", "setLastApplied in handle comes after the entries were applied", e.ipos(s),
+					"the applied cursor that releases reads and snapshots is published only after Update returned", "the last-applied cursor is published before the entries are applied: reads can be released against state that does not contain them yet")
+			}
+		}
+	}
+}
+
+// ruleReadRelease (C01, C06): the reader is released (readyToRead set,
+// Completed notified) only under 0 < batch index <= applied, and the batch
+// index comes from a ReadyToRead record of the raft core.
+func ruleReadRelease(e *Engine, r *Report) {
+	n := 0
+	rbIndex := r.needField("dragonboat", "readBatch", "index")
+	readyToRead := r.needField("dragonboat", "RequestState", "readyToRead")
+	readySet := r.need("(*dragonboat.ready).set")
+	applied := r.need("(*dragonboat.pendingReadIndex).applied")
+	if rbIndex != nil && readyToRead != nil && readySet != nil && applied != nil {
+		n = 0
+		for _, s := range e.CallerSites(readySet) {
+			// receiver is &req.readyToRead
+			recv := s.Common().Args
+			if len(recv) == 0 {
+				continue
+			}
+			f, _, ok := fieldOfAddr(recv[0])
+			if !ok || f != readyToRead {
+				continue
+			}
+			n++
+			key := "readyToRead.set in " + fname(s.Parent())
+			var appliedParam VM = func(v ssa.Value) bool {
+				p, ok := stripConv(v).(*ssa.Parameter)
+				return ok && p.Name() == "applied"
+			}
+			r.guard("GD-read-release", key, s.(ssa.Instruction),
+				reqCmp("batch index <= applied", "<=", fieldV(rbIndex), appliedParam),
+				reqCmp("batch index > 0", ">", fieldV(rbIndex), intConstV(0)))
+		}
+		r.floor("GD-read-release", n, 1)
+		// rb.index is set only from ReadyToRead records
+		rtrIndex := e.Field("raftpb", "ReadyToRead", "Index")
+		for _, w := range e.FieldWrites(rbIndex) {
+			if intConstV(0)(w.Val) {
+				continue
+			}
+			r.check(fieldV(rtrIndex)(w.Val), "WMW-read-index", "readBatch.index written in "+fname(w.Fn), e.ipos(w.Instr),
+				"the batch index comes from a ReadyToRead record produced by the raft core", "the batch index is set from something other than a ReadyToRead record")
+		}
+	}
+}
+
+// ruleCompletedNotRejected (C01, C12): in the proposal table's applied step
+// the Completed code is selected only on the edge where the entry was not
+// rejected by the state machine.
+func ruleCompletedNotRejected(e *Engine, r *Report) {
+	cc := r.needConst("dragonboat", "requestCompleted")
+	if cc == nil {
+		return
+	}
+	// in proposalShard.applied: Completed only when not rejected
+	if ap := e.Func("(*dragonboat.proposalShard).applied"); ap != nil {
+		forEachInstr(ap, func(in ssa.Instruction) {
+			ph, ok := in.(*ssa.Phi)
+			if !ok {
+				return
+			}
+			for i, ed := range ph.Edges {
+				if constV(cc)(ed) && ed.Type().String() == cc.Type().String() {
+					fs := expandFacts(edgeFacts(ph.Block().Preds[i], ph.Block()))
+					okr := hasBoolFact(fs, func(v ssa.Value) bool { p, ok := v.(*ssa.Parameter); return ok && p.Name() == "rejected" }, false)
+					r.check(okr, "WMC-completed", "Completed in proposalShard.applied only when not rejected", e.ipos(in),
+						"a rejected proposal is reported Rejected", "a rejected proposal can be reported Completed")
+				}
+			}
+		})
+	}
+}
